@@ -122,8 +122,12 @@ func (f *Metrics) GlyphList() []string {
 }
 
 func (f *Metrics) FontBBoxPDF() (bbox rect.Rect) {
-	for _, g := range f.Glyphs {
-		bbox.Extend(g.BBox)
+	// visit the glyphs in a fixed order: which of two equal coordinates
+	// (+0 and -0) ends up in the union depends on the order
+	names := maps.Keys(f.Glyphs)
+	sort.Strings(names)
+	for _, name := range names {
+		bbox.Extend(f.Glyphs[name].BBox)
 	}
 	return bbox
 }
